@@ -20,14 +20,14 @@ func canonV(v kit.V3) kit.V3 {
 
 type surf struct {
 	tris  []kit.Tri
-	verts []kit.V3         // id -> position
-	id    map[kit.V3]int   // position -> id
-	f     [][3]int         // faces as vertex ids
-	dir   map[[2]int]int   // directed edge -> face
-	nbrs  [][]int          // vertex -> neighbour vertices, in order of first appearance (deterministic)
-	nE    int              // undirected edges
-	loop  []int            // boundary loop (vertex ids, following the face orientation); nil when closed
-	onBd  []bool           // vertex is on the boundary
+	verts []kit.V3       // id -> position
+	id    map[kit.V3]int // position -> id
+	f     [][3]int       // faces as vertex ids
+	dir   map[[2]int]int // directed edge -> face
+	nbrs  [][]int        // vertex -> neighbour vertices, in order of first appearance (deterministic)
+	nE    int            // undirected edges
+	loop  []int          // boundary loop (vertex ids, following the face orientation); nil when closed
+	onBd  []bool         // vertex is on the boundary
 }
 
 // index builds ids and the directed edge table.  It fails when a face repeats a
